@@ -640,15 +640,32 @@ namespace
                 {
                   ++stats.queries; ++stats.checks; ++stats.by_check["twin"];
                   std::vector<double> out2;
+                  // "pos2": the twin is asked at another position (cells pos2[0..2] = x, y, z or r, lon, lat), e.g. a moved world
+                  double q[3] = {c[0], c[1], c[2]};
+                  if (s.HasMember("pos2"))
+                    {
+                      for (int k = 0; k < 3; ++k) q[k] = c[s["pos2"][static_cast<rapidjson::SizeType>(k)].GetUint()];
+                      if (sph_rows)
+                        {
+                          const double r = q[0], lon = q[1] * (PI / 180.), lat = q[2] * (PI / 180.);
+                          q[0] = r * std::cos(lat) * std::cos(lon); q[1] = r * std::cos(lat) * std::sin(lon); q[2] = r * std::sin(lat);
+                        }
+                    }
                   try
                     {
-                      out2 = dim == 3 ? H2.world()->properties(std::array<double,3> {{c[0], c[1], c[2]}}, c[3], props)
-                             : H2.world()->properties(std::array<double,2> {{c[0], c[1]}}, c[2], props);
+                      out2 = dim == 3 ? H2.world()->properties(std::array<double,3> {{q[0], q[1], q[2]}}, c[3], props)
+                             : H2.world()->properties(std::array<double,2> {{q[0], q[1]}}, c[2], props);
                     }
                   catch (const std::exception &e) { mism("query", std::string("twin query threw: ") + e.what()); }
                   bool same = out2.size() == out.size();
                   size_t where = 0;
-                  for (size_t i = 0; same && i < out.size(); ++i) if (bits(out[i]) != bits(out2[i])) { same = false; where = i; }
+                  const double trel = s.HasMember("twinrel") ? eval(s["twinrel"]) : -1., tabs = s.HasMember("twinabs") ? eval(s["twinabs"]) : 0.;
+                  for (size_t i = 0; same && i < out.size(); ++i)
+                    {
+                      const bool eqv = trel < 0 ? bits(out[i]) == bits(out2[i])
+                                       : std::fabs(out[i] - out2[i]) <= tabs + trel * std::max(std::fabs(out[i]), std::fabs(out2[i]));
+                      if (!eqv) { same = false; where = i; }
+                    }
                   stats.values += static_cast<long>(out.size());
                   if (!same)
                     mism("twin", "row [" + fmt(c[0]) + "," + fmt(c[1]) + "," + fmt(c[2]) + "," + fmt(c[3]) + "]: the twin world answers differently",
